@@ -71,6 +71,7 @@ type endpoint struct {
 	ordered     bool
 	orderChecks int
 	restarts    int
+	slowFor     time.Duration // how long a "slow" answer takes
 }
 
 func (ep *endpoint) v(sig, f string, a ...any) {
@@ -190,7 +191,7 @@ func (ep *endpoint) RoundTrip(req *http.Request) (*http.Response, error) {
 	ep.mu.Unlock()
 
 	if slow {
-		time.Sleep(1500 * time.Millisecond)
+		time.Sleep(ep.slowFor)
 	} else {
 		time.Sleep(5 * time.Millisecond)
 	}
@@ -245,7 +246,7 @@ func pushBody(t *testing.T, prop string, ordered bool) {
 	if ordered {
 		n = cfg.N(96, 3000)
 	}
-	var pushes, failedPushes, orderChecks, fetchFaults int64
+	var pushes, failedPushes, orderChecks, fetchFaults, verySlowCases int64
 	statusSeen := map[int]bool{}
 	// (the last four make sure that both characters in which the standard and
 	// the URL-safe base64 alphabets differ occur: a run of four '?' / '~' puts one
@@ -264,10 +265,24 @@ func pushBody(t *testing.T, prop string, ordered bool) {
 			r := e.Rand
 			topic, sub := "projects/p/topics/t", "projects/p/subscriptions/push"
 			mkTopic(e, topic)
-			mkSub(e, &pubsubpb.Subscription{Name: sub, Topic: topic, PushConfig: &pubsubpb.PushConfig{PushEndpoint: "http://endpoint.invalid/push"}, EnableMessageOrdering: ordered,
-				RetryPolicy: &pubsubpb.RetryPolicy{MinimumBackoff: durationpb.New(2 * time.Second), MaximumBackoff: durationpb.New(5 * time.Second)}})
+			// some grow-then-slow cases: a subscription without a retry policy
+			// (the defaults: leases of about 11 s) and an endpoint that takes 15 s - the
+			// pusher has to keep extending the leases of what is in flight
+			// (after a few fast successes, so that the window has room for a re-fetch of
+			// something whose lease ran out under a push that is still in flight)
+			verySlow := !ordered && i%9 == 7 && (i/9)%4 == 3
+			spec := &pubsubpb.Subscription{Name: sub, Topic: topic, PushConfig: &pubsubpb.PushConfig{PushEndpoint: "http://endpoint.invalid/push"}, EnableMessageOrdering: ordered,
+				RetryPolicy: &pubsubpb.RetryPolicy{MinimumBackoff: durationpb.New(2 * time.Second), MaximumBackoff: durationpb.New(5 * time.Second)}}
+			if verySlow {
+				spec.RetryPolicy = nil
+			}
+			mkSub(e, spec)
 			id := must(e.Client.Subscription.Query().Where(subscription.Name(sub)).OnlyID(e.Ctx))
-			ep := &endpoint{sub: sub, msgs: map[string]*pushMsg{}, statuses: map[int]int{}, ordered: ordered}
+			ep := &endpoint{sub: sub, msgs: map[string]*pushMsg{}, statuses: map[int]int{}, ordered: ordered, slowFor: 1500 * time.Millisecond}
+			if verySlow {
+				ep.slowFor = 15 * time.Second
+				verySlowCases++
+			}
 			// script kinds
 			kind := []string{"all-fast-success", "all-slow-success", "alternating", "failure-burst", "every-status", "ramp", "grow-then-fail", "grow-then-slow", "narrow-then-backlog"}[i%9]
 			nm := 4 + r.Intn(12)
@@ -296,6 +311,11 @@ func pushBody(t *testing.T, prop string, ordered bool) {
 				combos := [][3]int{{1, 2, 3}, {2, 3, 4}, {2, 6, 3}, {4, 5, 5}, {4, 12, 4}, {9, 10, 6}, {9, 25, 3}, {3, 4, 0}}
 				c := combos[(i/9)%len(combos)]
 				grow, slowN, extra = c[0], c[1], c[2]
+				if !ordered && (i/9)%4 == 3 {
+					// the very slow variant (see below): fewer slow pushes than the window
+					// has room for, so that a re-fetch would be possible
+					grow, slowN, extra = 4+r.Intn(3), 2, 2
+				}
 				nm = grow + slowN + extra
 			}
 			backlog := 0
@@ -474,7 +494,7 @@ func pushBody(t *testing.T, prop string, ordered bool) {
 					// runs into a storage error at its k-th statement (BEGIN .. COMMIT).
 					// The pusher gives up and is replaced; what the endpoint then sees
 					// must still be numbered 1, 2, ... per message and never overlap
-					faulted := i%2 == 0
+					faulted := i%2 == 0 && !verySlow
 					if faulted {
 						seam.C.ResetCounts()
 						f := &seam.Fault{Actor: "pusher", K: 1 + r.Intn(8), Mode: seam.FaultError}
@@ -582,6 +602,7 @@ func pushBody(t *testing.T, prop string, ordered bool) {
 		})
 	}
 	col.Add("ev_pushes_observed", pushes)
+	col.Add("ev_cases_with_default_retry_policy_and_15s_answers", verySlowCases)
 	col.Add("ev_storage_errors_injected_into_a_fetch_of_the_pusher", fetchFaults)
 	col.Add("ev_failed_pushes_observed", failedPushes)
 	col.Add("ev_distinct_final_statuses_this_shard", int64(len(statusSeen)))
